@@ -93,13 +93,17 @@ FailEnds   == T.panic = "" /\ T.impossible =>
                  /\ \E k \in DOMAIN T.events : T.events[k].type = "failure"
                  /\ \A i \in RunIds : Runs[i].exited
 NoGoError  == T.op = "resume" /\ T.generated => T.err \in {0, 101, 102, 103}
+\* the decision itself - is this resume rejected, and as what - is the one Engine.tla's decision list prescribes for the same
+\* session and the same resume (ResumeReject / ResumeFail / ResumeAccept in the order the statement lists their conditions;
+\* which types a wait accepts is the contract of the wait kinds: Engine!Accepts)
+DecisionAsPrescribed == T.op = "resume" /\ T.generated /\ T.hasexp /\ T.panic = "" => T.err = T.experr
 
 InvC01 == /\ Check("C01.StatusOK", StatusOK) /\ Check("C01.ExitedOK", ExitedOK)
           /\ Check("C01.WalkOK", WalkOK) /\ Check("C01.EventsOK", EventsOK)
 InvC05 == /\ Check("C05.StepBound", StepBound) /\ Check("C05.ResumeBound", ResumeBound)
           /\ Check("C05.LimitFails", LimitFails) /\ Check("C05.NoPanic", NoPanic) /\ Check("C05.NoHang", NoHang)
 InvC10 == /\ Check("C10.Untouched", Untouched) /\ Check("C10.FailEnds", FailEnds)
-          /\ Check("C10.NoGoError", NoGoError) /\ Check("C10.NoPanic", NoPanic)
+          /\ Check("C10.NoGoError", NoGoError) /\ Check("C10.NoPanic", NoPanic) /\ Check("C10.DecisionAsPrescribed", DecisionAsPrescribed)
 
 \* accept only if every line was consumed
 Accepted == TLCGet("stats").diameter = Len(Trace)
